@@ -3,10 +3,15 @@ package kubernetes
 import (
 	"context"
 	"encoding/json"
+	"errors"
 	"fmt"
+	"net"
+	"net/url"
+	"os"
 	"strconv"
 	"strings"
 	"sync"
+	"syscall"
 	"testing"
 	"time"
 
@@ -38,8 +43,14 @@ import (
 //             (a sentinel RuleSet is created and its OnCreated is awaited).
 // The provider leaves validation to the processor; "invalid" content is content the recording
 // processor refuses (as heimdall's processor does when a rule cannot be created).
+// In both modes the recording processor enforces what heimdall's rule repository enforces (vfkProc): a
+// path expression held by the rule set of one source cannot be claimed by another source while that rule
+// set is loaded. Every version of a RuleSet object and every re-created successor (same name, new UID)
+// carries the same stable path next to a version specific one, as a manifest that is applied again does.
 
 const vfGenericK8s = "k8s-mismatch"
+
+const vfkSentinelNS = "verif"
 
 const (
 	vfkApply1     = iota // create r1, or change its spec (new valid content, generation+1)
@@ -54,11 +65,14 @@ const (
 	vfkApply2            // create r2 / change its spec
 	vfkDelete2           // delete r2
 	vfkFail              // next processor call fails
+	vfkStatusOdd1        // status-only update of r1 that leaves a status.activeIn heimdall did not write itself (same generation)
+	vfkPatchErr          // the next status patch for a RuleSet is answered with an error (transport error, timeout, 5xx)
 	vfkN
 )
 
 var vfkNames = [vfkN]string{"apply-new-spec(r1)", "apply-refused-spec(r1)", "status-update(r1)", "resync(r1)", "delete(r1)", "auth-class-away(r1)", "auth-class-back(r1)",
-	"replaced-during-watch-outage(r1)", "deleted-during-watch-outage(r1)", "apply-new-spec(r2)", "delete(r2)", "processor-fails-next"}
+	"replaced-during-watch-outage(r1)", "deleted-during-watch-outage(r1)", "apply-new-spec(r2)", "delete(r2)", "processor-fails-next",
+	"status-update-foreign-activein(r1)", "status-patch-fails-next"}
 
 // ---------------------------------------------------------------------------------------------
 // in-memory API (fake v1alpha4.Client)
@@ -74,6 +88,50 @@ type vfkAPI struct {
 	conflicts int64
 	lists     int64
 	noPatch   bool // handlers mode: status patches are acknowledged without effect (no informer consumes them)
+	// patchErr: kind of error the next status patch of a RuleSet of the workload is answered with ("" = none);
+	// patchErrHit: the kind that was delivered since the last takePatchErr()
+	patchErr    string
+	patchErrHit string
+	patchErrs   int64
+}
+
+// vfkPatchErrKinds are the ways a status patch fails without the object being concerned. The first two are what
+// client-go's REST client returns when no HTTP response was received (not a *StatusError), the others are
+// *StatusError values built from a 5xx/429 response.
+var vfkPatchErrKinds = []string{"connection-refused", "deadline-exceeded", "status-500", "status-503", "status-429"}
+
+func vfkIsPlainPatchErr(kind string) bool {
+	return kind == "connection-refused" || kind == "deadline-exceeded"
+}
+
+func vfkPatchError(kind string, patch v1alpha4.Patch) error {
+	u := "https://10.96.0.1:443/apis/" + v1alpha4.GroupName + "/" + v1alpha4.GroupVersion + "/namespaces/" + patch.ResourceNamespace() +
+		"/rulesets/" + patch.ResourceName() + "/status"
+	switch kind {
+	case "connection-refused":
+		return &url.Error{Op: "Patch", URL: u, Err: &net.OpError{Op: "dial", Net: "tcp", Err: os.NewSyscallError("connect", syscall.ECONNREFUSED)}}
+	case "deadline-exceeded":
+		return &url.Error{Op: "Patch", URL: u, Err: context.DeadlineExceeded}
+	case "status-500":
+		return apierrors.NewInternalError(errors.New("etcdserver: request timed out"))
+	case "status-503":
+		return apierrors.NewServiceUnavailable("the server is currently unable to handle the request")
+	}
+	return apierrors.NewTooManyRequests("too many requests, please try again later", 1)
+}
+
+func (a *vfkAPI) armPatchErr(kind string) {
+	a.mu.Lock()
+	a.patchErr = kind
+	a.mu.Unlock()
+}
+
+func (a *vfkAPI) takePatchErr() string {
+	a.mu.Lock()
+	defer a.mu.Unlock()
+	k := a.patchErrHit
+	a.patchErrHit = ""
+	return k
 }
 
 func vfkNewAPI() *vfkAPI {
@@ -245,6 +303,13 @@ func (r *vfkRepo) PatchStatus(_ context.Context, patch v1alpha4.Patch, _ metav1.
 	a.mu.Lock()
 	defer a.mu.Unlock()
 	a.patches++
+	if a.patchErr != "" && patch.ResourceNamespace() != vfkSentinelNS {
+		// the sentinels of the informer mode are not part of the workload: their patches never fail
+		k := a.patchErr
+		a.patchErr, a.patchErrHit = "", k
+		a.patchErrs++
+		return nil, vfkPatchError(k, patch)
+	}
 	cur := a.objs[vfkKey(patch.ResourceNamespace(), patch.ResourceName())]
 	if cur == nil {
 		return nil, apierrors.NewNotFound(vfkGR, patch.ResourceName())
@@ -303,9 +368,18 @@ type vfkWorld struct {
 	gone    []string           // logical sources (name:uid) that existed once and are gone now
 }
 
-func vfkRule(id string) vfrc2.Rule {
-	return vfrc2.Rule{ID: id, Matcher: vfrc2.Matcher{Routes: []vfrc2.Route{{Path: "/" + strings.NewReplacer("#", "_", ":", "_").Replace(id)}}},
-		Execute: []config.MechanismConfig{{"authenticator": "a"}}}
+// vfkRule: the first route is specific to this content id, the further ones are the stable paths of the object.
+func vfkRule(id string, stable ...string) vfrc2.Rule {
+	routes := []vfrc2.Route{{Path: "/" + strings.NewReplacer("#", "_", ":", "_").Replace(id)}}
+	for _, p := range stable {
+		routes = append(routes, vfrc2.Route{Path: p})
+	}
+	return vfrc2.Rule{ID: id, Matcher: vfrc2.Matcher{Routes: routes}, Execute: []config.MechanismConfig{{"authenticator": "a"}}}
+}
+
+// stablePath is the path expression every version and every re-created successor of resource l carries.
+func (w *vfkWorld) stablePath(l string) string {
+	return "/api/" + w.tag + l + "/:resource"
 }
 
 func (w *vfkWorld) logical(l string) string {
@@ -325,7 +399,7 @@ func (w *vfkWorld) newObj(l string, valid bool) *v1alpha4.RuleSet {
 	return &v1alpha4.RuleSet{
 		TypeMeta:   metav1.TypeMeta{APIVersion: v1alpha4.GroupName + "/" + v1alpha4.GroupVersion, Kind: "RuleSet"},
 		ObjectMeta: metav1.ObjectMeta{Name: r.name, Namespace: r.ns, UID: types.UID(fmt.Sprintf("%s%s-uid-%d", w.tag, l, r.uidN)), Generation: 1, CreationTimestamp: metav1.NewTime(time.Unix(1700000000, 0))},
-		Spec:       v1alpha4.RuleSetSpec{AuthClassName: DefaultClass, Rules: []vfrc2.Rule{vfkRule(id)}},
+		Spec:       v1alpha4.RuleSetSpec{AuthClassName: DefaultClass, Rules: []vfrc2.Rule{vfkRule(id, w.stablePath(l))}},
 	}
 }
 
@@ -339,7 +413,7 @@ func (w *vfkWorld) newSpec(l string, valid bool) *v1alpha4.RuleSet {
 	r.content, r.valid = id, valid
 	o := r.obj.DeepCopy()
 	o.Generation++
-	o.Spec.Rules = []vfrc2.Rule{vfkRule(id)}
+	o.Spec.Rules = []vfrc2.Rule{vfkRule(id, w.stablePath(l))}
 	return o
 }
 
@@ -366,11 +440,182 @@ func (w *vfkWorld) holder(content string) string {
 
 func vfkReject(content string) bool { return strings.HasPrefix(content, "refused-") }
 
+// live: the logical source ls is the current incarnation of an object this heimdall instance is responsible for
+func (w *vfkWorld) live(ls string) bool {
+	for l := range w.res {
+		if w.logical(l) == ls && w.state(l).Kind != vfGone {
+			return true
+		}
+	}
+	return false
+}
+
+// ---------------------------------------------------------------------------------------------
+// recording processor with the path ownership rule of heimdall's rule repository
+
+// vfkClash is one OnCreated/OnUpdated the processor refused because a path was held by another source.
+type vfkClash struct {
+	Op      string // C or U
+	Source  string // source of the refused rule set
+	Content string
+	Path    string
+	Owner   string // source whose loaded rule set holds Path
+}
+
+// vfkProc is the rule.SetProcessor handed to the provider. It records through the shared vfRecorder and refuses,
+// like repository.AddRuleSet/UpdateRuleSet do (radix tree value constraint "only rules from the same rule set
+// can be placed in one node", see TestRepositoryAddRuleSetWithViolation), a rule set with a path expression
+// that a loaded rule set of another source holds. Paths are released when the holder is deleted or replaced by
+// an update without them; a refused or failed call changes nothing.
+type vfkProc struct {
+	mu      sync.Mutex
+	rec     *vfRecorder
+	paths   map[string]string // path expression -> Source of the loaded rule set holding it
+	clash   bool              // the call being recorded claims a path of another source
+	clashes []vfkClash        // since the last takeClashes()
+}
+
+func vfkNewProc() *vfkProc {
+	p := &vfkProc{rec: vfNewRecorder(), paths: map[string]string{}}
+	p.rec.reject = func(content string) bool { return vfkReject(content) || p.clash } // called by rec.record, i.e. under p.mu
+	return p
+}
+
+func (p *vfkProc) release(src string) {
+	for path, owner := range p.paths {
+		if owner == src {
+			delete(p.paths, path)
+		}
+	}
+}
+
+func (p *vfkProc) load(op string, rs *vfrc2.RuleSet, record func(*vfrc2.RuleSet) error) error {
+	p.mu.Lock()
+	defer p.mu.Unlock()
+	var cl *vfkClash
+	for _, r := range rs.Rules {
+		for _, rt := range r.Matcher.Routes {
+			if owner, held := p.paths[rt.Path]; held && owner != rs.Source && cl == nil {
+				cl = &vfkClash{Op: op, Source: rs.Source, Path: rt.Path, Owner: owner}
+				if len(rs.Rules) > 0 {
+					cl.Content = rs.Rules[0].ID
+				}
+			}
+		}
+	}
+	p.clash = cl != nil
+	err := record(rs)
+	p.clash = false
+	if cl != nil {
+		p.clashes = append(p.clashes, *cl)
+		return err
+	}
+	if err == nil {
+		p.release(rs.Source)
+		for _, r := range rs.Rules {
+			for _, rt := range r.Matcher.Routes {
+				p.paths[rt.Path] = rs.Source
+			}
+		}
+	}
+	return err
+}
+
+func (p *vfkProc) OnCreated(rs *vfrc2.RuleSet) error { return p.load("C", rs, p.rec.OnCreated) }
+func (p *vfkProc) OnUpdated(rs *vfrc2.RuleSet) error { return p.load("U", rs, p.rec.OnUpdated) }
+
+func (p *vfkProc) OnDeleted(rs *vfrc2.RuleSet) error {
+	p.mu.Lock()
+	defer p.mu.Unlock()
+	err := p.rec.OnDeleted(rs)
+	if err == nil {
+		p.release(rs.Source)
+	}
+	return err
+}
+
+func (p *vfkProc) takeClashes() []vfkClash {
+	p.mu.Lock()
+	defer p.mu.Unlock()
+	c := p.clashes
+	p.clashes = nil
+	return c
+}
+
+// vfkPending is taken before a step is judged: the sources whose last call failed by injection at that time.
+func vfkPending(o *vfOracle) map[string]bool {
+	m := make(map[string]bool, len(o.dirty))
+	for l, d := range o.dirty {
+		m[l] = d
+	}
+	return m
+}
+
+// vfkJudgeClashes is called after o.step, which treats every failed call like an injected failure (the change
+// stays pending, nothing is promised). That is right for a refusal whose path holder could not be unloaded
+// because of an injected failure. Any other refusal of the valid content of an existing source means that the
+// provider asked for it while a rule set that has to be gone (or was never to be loaded) still held the path:
+// the source is not converging although nothing failed.
+func vfkJudgeClashes(o *vfOracle, w *vfkWorld, idx int, s *vfStep, pending map[string]bool, calls []vfCall, clashes []vfkClash) {
+	for _, c := range clashes {
+		o.stat.add("k8s_path_clash_refusals", 1)
+		l := s.Holder(c.Content)
+		if l == "" || s.States[l].Kind != vfValid {
+			continue // refused content, or already reported by o.step as content nobody holds
+		}
+		ownerL := o.keyOf[c.Owner]
+		unloadFailed := ownerL != "" && pending[ownerL]
+		for _, k := range calls {
+			if k.Op == "D" && k.Source == c.Owner && k.Failed {
+				unloadFailed = true
+			}
+		}
+		switch {
+		case unloadFailed:
+			o.stat.add("k8s_path_clash_behind_failed_unload", 1)
+		case ownerL != "" && w.live(ownerL):
+			o.stat.add("k8s_path_clash_between_live_sources_unasserted", 1) // not generated: r1 and r2 share no path
+		default:
+			st := s.States[l]
+			delete(o.dirty, l) // nothing was injected: the final check judges this source
+			o.addMismatch(idx, s, vfMismatch{Kind: "valid-content-refused-path-held-by-removed-source", Source: l, State: st.String(),
+				Expected: "loaded: " + c.Path + " is claimed by no other existing source",
+				Observed: fmt.Sprintf("%s(%s=%s) refused by the repository rule: %s is held by the loaded rule set of %s (%s), which is unloaded afterwards or never",
+					c.Op, c.Source, c.Content, c.Path, c.Owner, ownerL), st: st})
+		}
+	}
+}
+
 // ---------------------------------------------------------------------------------------------
 
+const (
+	vfkSigClash      = "k8s-replacement-refused-predecessor-still-loaded"
+	vfkSigActiveIn   = "k8s-status-activein-without-slash-panics"
+	vfkSigPatchPlain = "k8s-status-patch-plain-error-panics"
+)
+
 func vfkClassifier(o *vfOracle) func(m *vfMismatch, s *vfStep) string {
+	panicSig := map[int]string{} // step -> narrow signature of the panic that ended its handler
 	return func(m *vfMismatch, s *vfStep) string {
 		switch {
+		case m.Kind == "provider-panic" && strings.Contains(m.Observed, "index out of range") && s.Ctx["active_in_without_slash"] != "":
+			// updateStatus splits status.activeIn at "/" and reads both parts
+			panicSig[m.Step] = vfkSigActiveIn
+			return vfkSigActiveIn
+		case m.Kind == "provider-panic" && strings.Contains(m.Observed, "nil pointer") && s.Ctx["patch_error_plain"] != "":
+			// updateStatus takes every PatchStatus error for a *StatusError
+			panicSig[m.Step] = vfkSigPatchPlain
+			return vfkSigPatchPlain
+		case m.Kind == "missing-call" && panicSig[m.Step] != "":
+			// the handler was left by the panic before it made its further calls
+			return panicSig[m.Step]
+		case m.Kind == "valid-content-refused-path-held-by-removed-source" && s.Ctx["replaced"] != "":
+			// same namespace/name, new UID, seen as one update: the new object's rule set is handed over while the
+			// old object's rule set still holds the paths both have in common
+			return vfkSigClash
+		case m.Source != "" && (o.taint[m.Source] == vfkSigClash || o.taint[m.Source] == vfkSigActiveIn || o.taint[m.Source] == vfkSigPatchPlain):
+			// follow-up of the first divergence of this source
+			return o.taint[m.Source]
 		case s.Ctx["tombstone"] != "" && (m.Kind == "provider-panic" || m.Kind == "missing-call"):
 			// a deletion noticed by a re-list is delivered as cache.DeletedFinalStateUnknown; filter() asserts *RuleSet
 			return "k8s-tombstone-delete-panics"
@@ -383,16 +628,54 @@ func vfkClassifier(o *vfOracle) func(m *vfMismatch, s *vfStep) string {
 	}
 }
 
+// vfkCtx is the context of one step for the classifier: kv plus whether one of the objects handed to the
+// provider carries a status.activeIn without "/".
+func vfkCtx(kv map[string]string, objs ...*v1alpha4.RuleSet) map[string]string {
+	ctx := map[string]string{}
+	for k, v := range kv {
+		ctx[k] = v
+	}
+	for _, o := range objs {
+		if o != nil && o.Status.ActiveIn != "" && !strings.Contains(o.Status.ActiveIn, "/") {
+			ctx["active_in_without_slash"] = o.Status.ActiveIn
+		}
+	}
+	return ctx
+}
+
+// vfkForeignActiveIn are values of status.activeIn (a free-form string of at most 7 characters for the CRD) that
+// something else than this heimdall version left there.
+var vfkForeignActiveIn = []string{"3", "", "1/2/3", "one/two", "/", "12", "2/", "n/a", "-"}
+
+func vfkPickActiveIn(k int, st *vfStats) string {
+	v := vfkForeignActiveIn[k%len(vfkForeignActiveIn)]
+	st.add(fmt.Sprintf("k8s_foreign_active_in[%q]", v), 1)
+	return v
+}
+
+func vfkPickPatchErr(k int, st *vfStats) string {
+	v := vfkPatchErrKinds[k%len(vfkPatchErrKinds)]
+	st.add("k8s_status_patch_error_armed["+v+"]", 1)
+	return v
+}
+
 func TestC18(t *testing.T) {
 	r := core.Begin("C18", "fault_enumeration")
-	r.Rule("kubernetes: exhaustive sequences (length <=4 quick / <=5 thorough) over 12 symbols (r1: new spec, spec refused by the processor, status-only update, resync, delete, auth class away/back, " +
-		"replaced during a watch outage, deleted during a watch outage; r2: new spec, delete; processor failure) delivered as informer notifications to the provider's filter/add/update/delete " +
+	r.Rule("kubernetes: exhaustive sequences (length <=4 quick / <=5 thorough) over 14 symbols (r1: new spec, spec refused by the processor, status-only update, resync, delete, auth class away/back, " +
+		"replaced during a watch outage, deleted during a watch outage, status-only update leaving a foreign status.activeIn; r2: new spec, delete; processor failure; failing status patch " +
+		"(connection refused, deadline, 500, 503, 429)) delivered as informer notifications to the provider's filter/add/update/delete " +
 		"handlers; plus seeded sequences through newProvider+Start with the real client-go informer against an in-memory API (watch restarts, expired watches with re-list, status patches feeding " +
 		"back as MODIFIED events). Oracle: vfDecide per notification on the object's actual state, active rule sets = latest valid spec of existing matching RuleSets at the end. " +
+		"The recording processor enforces the path ownership rule of heimdall's rule repository (a path expression held by the loaded rule set of one source cannot be claimed by another source); " +
+		"all versions of an object and its re-created successors share one path expression, so a successor can only be loaded after its predecessor has been unloaded. " +
 		"Non-trivial: >=2 successful processor calls.")
 	r.Assume("the API server is an in-memory fake of the v1alpha4.Client interface (list, watch with resourceVersion, 410 on compacted history, optimistic-lock status patch)",
 		"handlers mode composes filter/add/update/delete exactly like provider.newController does (cache.FilteringResourceEventHandler)",
-		"content the processor refuses stands for an invalid rule set: the provider itself does not validate")
+		"content the processor refuses stands for an invalid rule set: the provider itself does not validate",
+		"the path ownership rule of internal/rules/repository_impl.go (radix tree value constraint, TestRepositoryAddRuleSetWithViolation) is modelled on equal path expressions; "+
+			"the real repository cannot be imported here (internal/rules imports the provider packages)",
+		"status.activeIn is a string of at most 7 characters for the CRD (charts/heimdall/crds/ruleset.yaml, no pattern): values without \"/\" can be stored by anything that may write the status",
+		"a status patch that gets no HTTP response is returned by client-go's REST client as *url.Error, not as *StatusError")
 
 	if prov, mode, names, _, ok := vfReplayCase(r); ok {
 		if seq, known := vfSymbols(names, vfkNames[:]); prov == "kubernetes" && known {
@@ -423,6 +706,8 @@ func TestC18(t *testing.T) {
 	r.Require("k8s_unchanged_no_call_steps", r.Counter("steps_unchanged_expect_no_call"), 1000)
 	r.Require("k8s_refused_content_steps", r.Counter("invalid_content_refused_by_processor"), 500)
 	r.Require("k8s_informer_steps_quiesced", r.Counter("k8s_informer_steps_quiesced"), 30)
+	r.Require("k8s_replacements_reusing_paths", r.Counter("k8s_replacements_reusing_paths"), 1000)
+	r.Require("k8s_path_clash_refusals", r.Counter("k8s_path_clash_refusals"), 20)
 	r.End()
 }
 
@@ -466,16 +751,17 @@ func vfkHandlers(r *core.Run) {
 func vfkRunHandlers(r *core.Run, seq []int, st *vfStats) (int, bool) {
 	api := vfkNewAPI()
 	api.noPatch = true
-	rec := vfNewRecorder()
-	rec.reject = vfkReject
+	proc := vfkNewProc()
+	rec := proc.rec
 	o := vfNewOracle(st)
 	classify := vfkClassifier(o)
-	p := &provider{p: rec, l: zerolog.Nop(), cl: api, ac: DefaultClass, id: "verif", configured: true}
+	p := &provider{p: proc, l: zerolog.Nop(), cl: api, ac: DefaultClass, id: "verif", configured: true}
 	h := cache.FilteringResourceEventHandler{
 		FilterFunc: p.filter,
 		Handler:    cache.ResourceEventHandlerFuncs{AddFunc: p.addRuleSet, DeleteFunc: p.deleteRuleSet, UpdateFunc: p.updateRuleSet},
 	}
 	w := &vfkWorld{res: map[string]*vfkRes{"r1": {ns: "ns1", name: "r1"}, "r2": {ns: "ns2", name: "r2"}}}
+	salt := vfDocSalt(seq, 0) // members of the symbol classes are a function of the sequence (replay writes the same)
 	step := 0
 	// notify runs one handler invocation and checks it; states are the logical sources concerned
 	notify := func(action string, states map[string]vfState, ctx map[string]string, fn func()) {
@@ -488,14 +774,22 @@ func vfkRunHandlers(r *core.Run, seq []int, st *vfStats) (int, bool) {
 			fn()
 		}()
 		calls := rec.take()
+		if k := api.takePatchErr(); k != "" {
+			st.add("k8s_status_patch_error_delivered["+k+"]", 1)
+			if vfkIsPlainPatchErr(k) {
+				ctx["patch_error_plain"] = k
+			}
+		}
 		if panicked != nil {
 			o.addMismatch(step, s, vfMismatch{Kind: "provider-panic", Observed: fmt.Sprint(panicked)})
 			st.add("k8s_handler_panics", 1)
 		}
+		pending := vfkPending(o)
 		o.step(step, s, calls)
+		vfkJudgeClashes(o, w, step, s, pending, calls, proc.takeClashes())
 		st.add("k8s_notifications", 1)
 	}
-	for _, sym := range seq {
+	for pos, sym := range seq {
 		l := "r1"
 		if sym == vfkApply2 || sym == vfkDelete2 {
 			l = "r2"
@@ -504,31 +798,37 @@ func vfkRunHandlers(r *core.Run, seq []int, st *vfStats) (int, bool) {
 		switch sym {
 		case vfkFail:
 			rec.armFailure()
+		case vfkPatchErr:
+			api.armPatchErr(vfkPickPatchErr(salt+pos, st))
 		case vfkApply1, vfkApply2, vfkInvalid1:
 			valid := sym != vfkInvalid1
 			if !res.exists {
 				obj := api.create(w.newObj(l, valid), true)
 				res.exists, res.obj = true, obj
-				notify(vfkNames[sym]+": ADDED", map[string]vfState{w.logical(l): w.state(l)}, nil, func() { h.OnAdd(obj, false) })
+				notify(vfkNames[sym]+": ADDED", map[string]vfState{w.logical(l): w.state(l)}, vfkCtx(nil, obj), func() { h.OnAdd(obj, false) })
 			} else {
 				old := res.obj
 				obj := api.update(w.newSpec(l, valid), true)
 				res.obj = obj
-				notify(vfkNames[sym]+": MODIFIED (generation+1)", map[string]vfState{w.logical(l): w.state(l)}, nil, func() { h.OnUpdate(old, obj) })
+				notify(vfkNames[sym]+": MODIFIED (generation+1)", map[string]vfState{w.logical(l): w.state(l)}, vfkCtx(nil, old, obj), func() { h.OnUpdate(old, obj) })
 			}
-		case vfkStatus1:
+		case vfkStatus1, vfkStatusOdd1:
 			if res.exists {
 				old := res.obj
 				n := old.DeepCopy()
 				n.Status.ActiveIn = fmt.Sprintf("%d/9", step)
+				if sym == vfkStatusOdd1 {
+					n.Status.ActiveIn = vfkPickActiveIn(salt+pos, st)
+				}
 				obj := api.update(n, true)
 				res.obj = obj
-				notify(vfkNames[sym]+": MODIFIED (same generation)", map[string]vfState{w.logical(l): w.state(l)}, nil, func() { h.OnUpdate(old, obj) })
+				notify(vfkNames[sym]+": MODIFIED (same generation, status.activeIn="+strconv.Quote(n.Status.ActiveIn)+")", map[string]vfState{w.logical(l): w.state(l)},
+					vfkCtx(nil, old, obj), func() { h.OnUpdate(old, obj) })
 			}
 		case vfkResync1:
 			if res.exists {
 				obj := res.obj
-				notify(vfkNames[sym]+": update(old==new)", map[string]vfState{w.logical(l): w.state(l)}, nil, func() { h.OnUpdate(obj, obj) })
+				notify(vfkNames[sym]+": update(old==new)", map[string]vfState{w.logical(l): w.state(l)}, vfkCtx(nil, obj), func() { h.OnUpdate(obj, obj) })
 			}
 		case vfkDelete1, vfkDelete2, vfkTombstone1:
 			if res.exists {
@@ -538,9 +838,10 @@ func vfkRunHandlers(r *core.Run, seq []int, st *vfStats) (int, bool) {
 				w.gone = append(w.gone, w.logical(l))
 				if sym == vfkTombstone1 {
 					tomb := cache.DeletedFinalStateUnknown{Key: res.ns + "/" + res.name, Obj: last}
-					notify(vfkNames[sym]+": delete(DeletedFinalStateUnknown)", map[string]vfState{w.logical(l): w.state(l)}, map[string]string{"tombstone": "1"}, func() { h.OnDelete(tomb) })
+					notify(vfkNames[sym]+": delete(DeletedFinalStateUnknown)", map[string]vfState{w.logical(l): w.state(l)}, vfkCtx(map[string]string{"tombstone": "1"}, last),
+						func() { h.OnDelete(tomb) })
 				} else {
-					notify(vfkNames[sym]+": DELETED", map[string]vfState{w.logical(l): w.state(l)}, nil, func() { h.OnDelete(last) })
+					notify(vfkNames[sym]+": DELETED", map[string]vfState{w.logical(l): w.state(l)}, vfkCtx(nil, last), func() { h.OnDelete(last) })
 				}
 			}
 		case vfkClassAway1, vfkClassBack1:
@@ -556,7 +857,7 @@ func vfkRunHandlers(r *core.Run, seq []int, st *vfStats) (int, bool) {
 					n.Spec.AuthClassName = class
 					obj := api.update(n, true)
 					res.obj = obj
-					notify(vfkNames[sym]+": MODIFIED (generation+1)", map[string]vfState{w.logical(l): w.state(l)}, nil, func() { h.OnUpdate(old, obj) })
+					notify(vfkNames[sym]+": MODIFIED (generation+1)", map[string]vfState{w.logical(l): w.state(l)}, vfkCtx(nil, old, obj), func() { h.OnUpdate(old, obj) })
 				}
 			}
 		case vfkReplace1:
@@ -567,8 +868,9 @@ func vfkRunHandlers(r *core.Run, seq []int, st *vfStats) (int, bool) {
 				w.gone = append(w.gone, oldLogical)
 				obj := api.create(w.newObj(l, true), true)
 				res.obj = obj
+				st.add("k8s_replacements_reusing_paths", 1)
 				notify(vfkNames[sym]+": re-list reports update(old UID, new UID)", map[string]vfState{oldLogical: {Kind: vfGone}, w.logical(l): w.state(l)},
-					map[string]string{"replaced": "1"}, func() { h.OnUpdate(old, obj) })
+					vfkCtx(map[string]string{"replaced": "1"}, old, obj), func() { h.OnUpdate(old, obj) })
 			}
 		}
 	}
@@ -613,7 +915,7 @@ func vfkInstallPanicRecorder() {
 
 func vfkInformer(r *core.Run) {
 	vfkInstallPanicRecorder()
-	nSeq := r.Pick(14, 120)
+	nSeq := r.Pick(16, 122)
 	seqLen := r.Pick(6, 8)
 	rng := r.Stream("c18-k8s-informer")
 	st := &vfStats{}
@@ -628,6 +930,8 @@ func vfkInformer(r *core.Run) {
 		{vfkApply1, vfkStatus1, vfkApply1, vfkInvalid1, vfkApply1, vfkClassAway1, vfkClassBack1, vfkDelete1},
 		{vfkApply1, vfkApply2, vfkReplace1, vfkDelete2},
 		{vfkApply1, vfkTombstone1, vfkApply2},
+		{vfkApply1, vfkApply1, vfkReplace1, vfkApply1, vfkReplace1},
+		{vfkApply1, vfkStatusOdd1, vfkApply1, vfkPatchErr, vfkApply2, vfkApply1},
 	}
 	for n := 0; n < nSeq; n++ {
 		var seq []int
@@ -657,10 +961,11 @@ func vfkInformer(r *core.Run) {
 
 func vfkRunInformer(r *core.Run, n int, seq []int, st *vfStats) (int, bool) {
 	api := vfkNewAPI()
-	rec := vfNewRecorder()
-	rec.reject = vfkReject
+	proc := vfkNewProc()
+	rec := proc.rec
 	o := vfNewOracle(st)
 	classify := vfkClassifier(o)
+	salt := vfDocSalt(seq, 0) // as in handlers mode: members are a function of the sequence and the position
 	var mu sync.Mutex
 	waiting := map[string]chan struct{}{}
 	rec.notify = func(c vfCall) {
@@ -676,7 +981,7 @@ func vfkRunInformer(r *core.Run, n int, seq []int, st *vfStats) (int, bool) {
 		}
 	}
 	conf := &config.Configuration{Providers: config.RuleProviders{Kubernetes: map[string]any{}}}
-	prov, err := newProvider(zerolog.Nop(), conf, func() (*rest.Config, error) { return &rest.Config{Host: "http://127.0.0.1:1"}, nil }, rec, nil)
+	prov, err := newProvider(zerolog.Nop(), conf, func() (*rest.Config, error) { return &rest.Config{Host: "http://127.0.0.1:1"}, nil }, proc, nil)
 	if err != nil {
 		r.Inconclusive("k8s informer: newProvider: " + err.Error())
 		return 0, false
@@ -686,12 +991,21 @@ func vfkRunInformer(r *core.Run, n int, seq []int, st *vfStats) (int, bool) {
 		r.Inconclusive("k8s informer: Start: " + err.Error())
 		return 0, false
 	}
-	defer func() {
+	// stop: Stop() writes the status of every RuleSet in the store on the caller's goroutine
+	stopped := false
+	stop := func() (panicked any) {
+		if stopped {
+			return nil
+		}
+		stopped = true
+		defer api.breakWatches(false)
+		defer func() { panicked = recover() }()
 		ctx, cancel := context.WithTimeout(context.Background(), 5*time.Second)
+		defer cancel()
 		_ = prov.Stop(ctx)
-		cancel()
-		api.breakWatches(false)
-	}()
+		return nil
+	}
+	defer stop()
 	w := &vfkWorld{tag: fmt.Sprintf("i%d-", n), res: map[string]*vfkRes{"r1": {ns: "ns1", name: "r1"}, "r2": {ns: "ns2", name: "r2"}}}
 	sentinelSources := map[string]bool{}
 	nSent := 0
@@ -704,7 +1018,7 @@ func vfkRunInformer(r *core.Run, n int, seq []int, st *vfStats) (int, bool) {
 		mu.Unlock()
 		api.create(&v1alpha4.RuleSet{
 			TypeMeta:   metav1.TypeMeta{APIVersion: v1alpha4.GroupName + "/" + v1alpha4.GroupVersion, Kind: "RuleSet"},
-			ObjectMeta: metav1.ObjectMeta{Name: fmt.Sprintf("zz-sentinel-%d", nSent), Namespace: "verif", UID: types.UID(id), Generation: 1},
+			ObjectMeta: metav1.ObjectMeta{Name: fmt.Sprintf("zz-sentinel-%d", nSent), Namespace: vfkSentinelNS, UID: types.UID(id), Generation: 1},
 			Spec:       v1alpha4.RuleSetSpec{AuthClassName: DefaultClass, Rules: []vfrc2.Rule{vfkRule(id)}},
 		}, false)
 		select {
@@ -736,12 +1050,22 @@ func vfkRunInformer(r *core.Run, n int, seq []int, st *vfStats) (int, bool) {
 		vfkPanics.log = nil
 		return p
 	}
-	if !quiesce() { // informer has listed and is watching
+	_ = takePanics() // nothing of an earlier sequence
+	if !quiesce() {  // informer has listed and is watching
 		return 0, false
 	}
 	_ = filter(rec.take())
+	// seen: the objects of the workload as the API holds them now plus the one removed in this step
+	seen := func(removed *v1alpha4.RuleSet) []*v1alpha4.RuleSet {
+		out := []*v1alpha4.RuleSet{removed}
+		for _, res := range w.res {
+			out = append(out, api.get(res.ns, res.name))
+		}
+		return out
+	}
+	plainPatchErr := "" // once delivered it is kept for the later steps of the sequence
 	step := 0
-	for _, sym := range seq {
+	for pos, sym := range seq {
 		step++
 		l := "r1"
 		if sym == vfkApply2 || sym == vfkDelete2 {
@@ -751,9 +1075,12 @@ func vfkRunInformer(r *core.Run, n int, seq []int, st *vfStats) (int, bool) {
 		states := map[string]vfState{}
 		ctx := map[string]string{}
 		acted := false
+		var removed *v1alpha4.RuleSet
 		switch sym {
 		case vfkFail:
 			rec.armFailure()
+		case vfkPatchErr:
+			api.armPatchErr(vfkPickPatchErr(salt+pos, st))
 		case vfkApply1, vfkApply2, vfkInvalid1:
 			valid := sym != vfkInvalid1
 			if !res.exists {
@@ -765,10 +1092,13 @@ func vfkRunInformer(r *core.Run, n int, seq []int, st *vfStats) (int, bool) {
 				res.obj = api.update(w.newSpec(l, valid), false)
 			}
 			acted = true
-		case vfkStatus1:
+		case vfkStatus1, vfkStatusOdd1:
 			if res.exists {
 				cur := api.get(res.ns, res.name)
 				cur.Status.ActiveIn = fmt.Sprintf("%d/9", step)
+				if sym == vfkStatusOdd1 {
+					cur.Status.ActiveIn = vfkPickActiveIn(salt+pos, st)
+				}
 				res.obj = api.update(cur, false)
 				acted = true
 			}
@@ -781,6 +1111,7 @@ func vfkRunInformer(r *core.Run, n int, seq []int, st *vfStats) (int, bool) {
 			}
 		case vfkDelete1, vfkDelete2:
 			if res.exists {
+				removed = api.get(res.ns, res.name)
 				api.delete(res.ns, res.name, false)
 				res.exists = false
 				w.gone = append(w.gone, w.logical(l))
@@ -804,12 +1135,14 @@ func vfkRunInformer(r *core.Run, n int, seq []int, st *vfStats) (int, bool) {
 			if res.exists {
 				// the change happens while no watch is connected and the history is compacted: re-list
 				oldLogical := w.logical(l)
+				removed = api.get(res.ns, res.name)
 				api.delete(res.ns, res.name, true)
 				w.gone = append(w.gone, oldLogical)
 				states[oldLogical] = vfState{Kind: vfGone}
 				if sym == vfkReplace1 {
 					res.obj = api.create(w.newObj(l, true), true)
 					ctx["replaced"] = "1"
+					st.add("k8s_replacements_reusing_paths", 1)
 				} else {
 					res.exists = false
 					ctx["tombstone"] = "1"
@@ -823,6 +1156,7 @@ func vfkRunInformer(r *core.Run, n int, seq []int, st *vfStats) (int, bool) {
 			o.trace = append(o.trace, vfTraceStep{Step: step, Action: vfkNames[sym] + " (nothing to do)", Calls: []string{}})
 			continue
 		}
+		ctx = vfkCtx(ctx, seen(removed)...)
 		if res.exists || sym == vfkReplace1 {
 			states[w.logical(l)] = w.state(l)
 		} else if _, ok := states[w.logical(l)]; !ok {
@@ -852,14 +1186,49 @@ func vfkRunInformer(r *core.Run, n int, seq []int, st *vfStats) (int, bool) {
 			}
 		}
 		st.add("k8s_informer_steps_quiesced", 1)
+		if k := api.takePatchErr(); k != "" {
+			st.add("k8s_status_patch_error_delivered["+k+"]", 1)
+			if vfkIsPlainPatchErr(k) {
+				plainPatchErr = k
+			}
+		}
+		if plainPatchErr != "" {
+			ctx["patch_error_plain"] = plainPatchErr
+		}
 		s := &vfStep{Action: vfkNames[sym] + " (real informer, quiesced)", States: states, Holder: w.holder, Classify: classify, Generic: vfGenericK8s, Ctx: ctx,
 			NoRetry: true}
 		for _, p := range takePanics() {
 			o.addMismatch(step, s, vfMismatch{Kind: "provider-panic", Observed: p})
 			st.add("k8s_informer_panics", 1)
 		}
-		o.step(step, s, filter(rec.take()))
+		pending := vfkPending(o)
+		calls := filter(rec.take())
+		o.step(step, s, calls)
+		vfkJudgeClashes(o, w, step, s, pending, calls, proc.takeClashes())
 	}
+	// graceful stop: the status of every RuleSet still in the store is written
+	step++
+	sctx := vfkCtx(nil, seen(nil)...)
+	sp := stop()
+	if k := api.takePatchErr(); k != "" {
+		st.add("k8s_status_patch_error_delivered["+k+"]", 1)
+		if vfkIsPlainPatchErr(k) {
+			plainPatchErr = k
+		}
+	}
+	if plainPatchErr != "" {
+		sctx["patch_error_plain"] = plainPatchErr
+	}
+	ss := &vfStep{Action: "Stop()", Classify: classify, Generic: vfGenericK8s, Ctx: sctx}
+	if sp != nil {
+		o.addMismatch(step, ss, vfMismatch{Kind: "provider-panic", Observed: fmt.Sprint(sp)})
+		st.add("k8s_informer_panics", 1)
+	}
+	for _, p := range takePanics() {
+		o.addMismatch(step, ss, vfMismatch{Kind: "provider-panic", Observed: p})
+		st.add("k8s_informer_panics", 1)
+	}
+	o.trace = append(o.trace, vfTraceStep{Step: step, Action: "Stop()", Calls: []string{}})
 	truth := map[string]vfState{}
 	for _, g := range w.gone {
 		truth[g] = vfState{Kind: vfGone}
